@@ -845,6 +845,66 @@ class Top(cohdl.Entity):
             self.q2 <<= named
 ''', tags=["sequential", "prefix", "named_qualifier", "uniquify"], N=["", "_b"])
 
+# ---- same widths with OPPOSITE bit order in different designs (widths no other pool design uses): the type
+#      caches are keyed per interpreter, the first request must not fix the direction of later ones
+_d("order_descending", '''
+class Top(cohdl.Entity):
+    clk = Port.input(Bit)
+    a = Port.input(BitVector[@H@:0])
+    u = Port.input(Unsigned[@G@:0])
+    s = Port.input(Signed[@G@:0])
+    y = Port.output(BitVector[@H@:0])
+    uo = Port.output(Unsigned[@G@:0])
+    so = Port.output(Signed[@G@:0])
+
+    def architecture(self):
+        reg = Signal[BitVector[@H@:0]](Null, name="reg")
+
+        @std.sequential(std.Clock(self.clk))
+        def proc():
+            reg.next = self.a
+            self.y <<= reg
+            self.uo <<= self.u
+            self.so <<= self.s
+''', tags=["sequential", "bit_order"], H=[36, 41], G=[38])
+
+_d("order_ascending", '''
+class Top(cohdl.Entity):
+    clk = Port.input(Bit)
+    a = Port.input(BitVector[0:@H@])
+    u = Port.input(Unsigned[0:@G@])
+    y = Port.output(BitVector[0:@H@])
+    uo = Port.output(Unsigned[0:@G@])
+
+    def architecture(self):
+        reg = Signal[BitVector[0:@H@]](Null, name="reg")
+
+        @std.sequential(std.Clock(self.clk))
+        def proc():
+            reg.next = self.a
+            self.y <<= reg
+            self.uo <<= self.u
+''', tags=["sequential", "bit_order"], H=[36, 41], G=[38])
+
+_d("order_mixed", '''
+class Top(cohdl.Entity):
+    a = Port.input(BitVector[0:@H@])
+    b = Port.input(BitVector[@K@:0])
+    y = Port.output(BitVector[0:@H@])
+    z = Port.output(BitVector[@K@:0])
+    first = Port.output(Bit)
+
+    def architecture(self):
+        var_sig = Signal[BitVector[0:@K@]](Null, name="asc_sig")
+
+        @std.concurrent
+        def logic():
+            self.y <<= self.a
+            self.z <<= self.b
+            var_sig.next = self.b
+            self.first <<= var_sig[0] ^ self.a[@H@]
+''', tags=["concurrent", "bit_order"], H=[43, 36], K=[44])
+
 # ---- bound methods / callable objects handed directly to cohdl.*_context (helper class with per-instance
 #      signals; two instances in one design, the same class used by a second top of the module)
 _d("bound_method_contexts", '''
